@@ -79,6 +79,13 @@ def defs_of(fn):
     return out
 
 
+def _held_error(ty, markers):
+    for m in sorted(markers, key=len, reverse=True):
+        if m in ty:
+            return m
+    return ty
+
+
 def errdrop_scan(rule, crate, fn_pred, markers, exceptions, what, scope_gone=True):
     """R-ERRDROP: no non-cleanup Drop of an error-typed place, no discarding adaptor.
 
@@ -110,7 +117,9 @@ def errdrop_scan(rule, crate, fn_pred, markers, exceptions, what, scope_gone=Tru
             if t["k"] == "drop":
                 ty = t["ty"]
                 if ty_mentions_error(ty, markers):
-                    detail = "drop:%s" % ty
+                    # keyed by the error type the dropped value can hold (a Result<T, E> and a bare E are the same
+                    # kind of loss), so that moving the site into a generic helper keeps its identity
+                    detail = "drop:%s" % _held_error(ty, markers)
 
                     def on_bad(fn=fn, ty=ty, detail=detail, t=t):
                         rule.violation(fn.path, detail,
